@@ -34,7 +34,9 @@ claim("C06", "contract equivalence by canonical form (AST -> lambda-term IR, sig
 
 EQ = "contract equivalence by canonical form (AST -> λ-term IR with maz/functools/operator lowering, sign case split, polynomial / Σ normal forms)"
 BASE_NOTE = ("Trusted: lowering + canonicaliser (sa/terms.py) and the hand-written reference terms (sa/ref); models acyclic (C10). "
-             "Decides code ≡ formula for all inputs; formula ⇒ property is the short argument in DESIGN.md. ")
+             "Decides code ≡ formula for all inputs; formula ⇒ property is the short argument in DESIGN.md. Properties stated over "
+             "validated models (C01, C03, C05, C08, C16) also carry the functions that decide what validation accepts as obligations "
+             "(their premise). ")
 
 claim("C03", EQ,
       "For all inputs (structural induction): assume/evaluate/evaluate_propositions and variable.evaluate are proven equal to the "
@@ -85,7 +87,9 @@ claim("C13", EQ + "; literal-dispatch exhaustiveness; batch self-recursion rule"
       ARR_NOTE + "pr.py_optimized_bit_allocation_64 is compiled.", "§4/C13")
 claim("C14", EQ + "; cross-site constant / producer-consumer agreement rules",
       "Partial claim: the conventions necessary for the lexicographic order (row order vs keep-last, user default 0, default fill -1, "
-      "tag -2 strictly below, complement tagged, ASPACE, asserted polyhedron). The numeric ranking itself is NOT claimed.",
+      "tag -2 strictly below, complement tagged, the tag read over every occurrence of an id rather than over the de-duplicated "
+      "flatten() (rule E7.tag-dedupe; the defect it describes was repaired, fix 2f2bbca), ASPACE, asserted polyhedron, both select() "
+      "bridges). The numeric ranking itself is NOT claimed.",
       BASE_NOTE, "§4/C14")
 claim("C15", EQ + "; index-space (FULL vs A-columns) pairing rules; must-pass-through (eager solver call inside try)",
       "Both bridges: solver gets the asserted FULL polyhedron, objectives live on A-columns with default 0, solutions are zipped with "
